@@ -24,27 +24,32 @@ from ..core import Machinery
 from ..rigs import script_rig as R
 
 INVARIANTS = ['TypeOK', 'InvOrder', 'InvPerRank', 'InvNoneSkipped', 'InvFailPre', 'InvExitCode',
-              'InvPostNeedsExec', 'InvBarrier', 'InvEnv', 'InvLaunch', 'InvAgree', 'InvProgress']
-DEVS = ['DevEnvUnescaped', 'DevIgnorePreFail', 'DevRetAfterPost']
+              'InvPostNeedsExec', 'InvBarrier', 'InvEnv', 'InvLaunch', 'InvOutFiles', 'InvAgree',
+              'InvProgress']
+DEVS = ['DevEnvUnescaped', 'DevIgnorePreFail', 'DevRetAfterPost', 'DevErrDirFromOut']
 
 
 # ------------------------------------------------------------------------------
 def cfgset(ranks='1..2', pre=2, post=1, prel='{0}', postl='{0}', sync='BOOLEAN',
            argv='{<<"plain">>}', env='{<<>>}', omp='{FALSE}', gpr='{0}', out='{"default"}',
-           lm=None, pre_set=None):
+           err='{"default"}', lm=None, pre_set=None):
     '''TLA+ set expression of task shapes (see ScriptOps.tla for the fields)'''
     lm    = lm or '(IF n = 1 THEN {"fork", "mpi"} ELSE {"mpi"})'
     pre_s = pre_set or 'SeqsUpTo(Entries(n), %d)' % pre
     return ('UNION { { [ranks |-> n, lm |-> lm, pre |-> p, post |-> q, prel |-> a, postl |-> b, '
-            'sync |-> s, argv |-> av, env |-> ev, omp |-> om, gpr |-> g, out |-> o] : '
+            'sync |-> s, argv |-> av, env |-> ev, omp |-> om, gpr |-> g, out |-> o, err |-> oe] : '
             'lm \\in %s, p \\in %s, q \\in SeqsUpTo(Entries(n), %d), a \\in %s, b \\in %s, '
-            's \\in %s, av \\in %s, ev \\in %s, om \\in %s, g \\in %s, o \\in %s } : n \\in %s }'
-            % (lm, pre_s, post, prel, postl, sync, argv, env, omp, gpr, out, ranks))
+            's \\in %s, av \\in %s, ev \\in %s, om \\in %s, g \\in %s, o \\in %s, oe \\in %s } '
+            ': n \\in %s }'
+            % (lm, pre_s, post, prel, postl, sync, argv, env, omp, gpr, out, err, ranks))
 
 
 _ONE  = dict(ranks='{1}', pre=0, post=0, sync='{FALSE}', lm='{"fork"}')
 _RES  = dict(pre_set='{<<>>, <<GEntry>>, <<REntry({0})>>}', post=0, sync='{FALSE}',
-             omp='BOOLEAN', gpr='0..2', out='{"default", "rel", "abs"}')
+             omp='BOOLEAN', gpr='0..2')
+_KINDS = '{"default", "rel", "abs"}'
+# td.stdout x td.stderr, independently: all nine combinations, every launcher
+_IO   = dict(pre_set='{<<>>, <<GEntry>>}', post=0, sync='{FALSE}', out=_KINDS, err=_KINDS)
 
 # the bounded domain is a union of slices: control flow x data would be a product
 # of dimensions that do not interact in the scripts
@@ -55,6 +60,7 @@ SLICES = {
         'argv'  : cfgset(argv='SeqsUpTo(Classes, 2)', **_ONE),
         'env'   : cfgset(env='SeqsUpTo(Classes, 2)', **_ONE),
         'res'   : cfgset(**_RES),
+        'io'    : cfgset(**_IO),
     },
     'thorough': {
         'ctl1'  : cfgset(ranks='{1}', pre=3, post=2),
@@ -65,6 +71,7 @@ SLICES = {
         'env'   : cfgset(env='SeqsUpTo(Classes, 2)', **_ONE),
         'envarg': cfgset(env='SeqsUpTo(Alarmed, 1)', argv='SeqsUpTo(Alarmed, 1)', **_ONE),
         'res'   : cfgset(**_RES),
+        'io'    : cfgset(gpr='0..1', **_IO),
     },
 }
 
@@ -113,7 +120,8 @@ def features(run):
     cfg, F, xrc = run
     fs = {'ranks%d' % cfg['ranks'], 'lm:' + cfg['lm'], 'sync%d' % cfg['sync'],
           'prel%d' % cfg['prel'], 'postl%d' % cfg['postl'], 'omp%d' % cfg['omp'],
-          'gpr%d' % cfg['gpr'], 'out:' + cfg['out'], 'argc%d' % len(cfg['argv']),
+          'gpr%d' % cfg['gpr'], 'io:%s/%s/%s%d' % (cfg['out'], cfg['err'], cfg['lm'], cfg['ranks']),
+          'argc%d' % len(cfg['argv']),
           'envc%d' % len(cfg['env']), 'xrc:%s' % ('ok' if not any(xrc) else 'nonzero')}
     for sig in ('pre', 'post'):
         fs.add('%s-len%d' % (sig, len(cfg[sig])))
@@ -177,6 +185,7 @@ def build_cases(runs, rng, per_data_run):
 
 # ------------------------------------------------------------------------------
 ENV_UNESCAPED = 'environment value with a double quote or a trailing / doubled backslash'
+MIXED_IO      = 'exactly one of td.stdout / td.stderr is an absolute path'
 ANY_TASK      = 'every task'
 OTHER         = 'task without hostile environment value'
 
@@ -188,6 +197,9 @@ def classify(case, clause):
     for val in case['env']:
         if '"' in val or val.endswith('\\') or '\\\\' in val:
             return ENV_UNESCAPED
+    cfg = case['cfg']
+    if (cfg['out'] == 'abs') != (cfg.get('err', cfg['out']) == 'abs'):
+        return MIXED_IO
     return OTHER
 
 
@@ -248,7 +260,8 @@ def run(chk, tier, seed):
 
     # ---- 2. deviation sensitivity of the model's invariants ------------------------
     if not quick:
-        small = {'ctl': cfgset(pre=1, post=1), 'env': SLICES['quick']['env']}
+        small = {'ctl': cfgset(pre=1, post=1), 'env': SLICES['quick']['env'],
+                 'io': SLICES['quick']['io']}
         for dev in DEVS:
             r2 = tlc.run('Script', 'MC', 'MC.cfg', workers=workers, timeout=900,
                          extra_files=mc_files(small, devs=[dev]))
